@@ -730,15 +730,16 @@ type checker struct {
 		sync.Mutex
 		m map[[16]byte]struct{}
 	}
-	images     atomic.Int64 // crash images generated
-	recoveries atomic.Int64 // recoveries executed (distinct image x expectation)
-	conts      atomic.Int64 // post-recovery continuations executed
-	histories  atomic.Int64
-	faultRuns  atomic.Int64
-	faultFired atomic.Int64
-	opsSeen    atomic.Int64
-	maxOps     atomic.Int64
-	kinds      sync.Map // crash variant kind -> *atomic.Int64
+	images      atomic.Int64 // crash images generated
+	recoveries  atomic.Int64 // recoveries executed (distinct image x expectation)
+	conts       atomic.Int64 // post-recovery continuations executed
+	recoveries2 atomic.Int64 // second-level recoveries (crash during recovery)
+	histories   atomic.Int64
+	faultRuns   atomic.Int64
+	faultFired  atomic.Int64
+	opsSeen     atomic.Int64
+	maxOps      atomic.Int64
+	kinds       sync.Map // crash variant kind -> *atomic.Int64
 }
 
 func (c *checker) first(h [16]byte, allowed []string, cont bool, probe uint64) bool {
@@ -954,6 +955,35 @@ func (c *checker) recoverOne(r *run, w *row, ci crashfs.CrashInfo, img *crashfs.
 	}
 	if !cont {
 		return
+	}
+	// second crash while (or right after) the recovery repaired the log: every whole-op crash image of the
+	// recovery's own FS ops must recover to the same content
+	if n := fs.NumOps(); n > 0 {
+		fs.EnumCrash(1, n, crashfs.Boundaries, func(ci2 crashfs.CrashInfo, img2 *crashfs.Image) bool {
+			c.recoveries2.Add(1)
+			fs2 := crashfs.NewFSFromImage(img2)
+			root2 := fs2.Mount()
+			defer fs2.Unmount()
+			var st2 store
+			var err2 error
+			var got2 []string
+			if p, msg := ev.Guard(func() {
+				st2, err2 = openStore(root2)
+				if err2 == nil {
+					got2, err2 = load(st2)
+					st2.Close()
+				}
+			}); p {
+				err2 = fmt.Errorf("panic: %s", msg)
+			}
+			if err2 != nil || join(got2) != g {
+				c.r.Outcome("second-recovery-differs")
+				r.violate("second crash during recovery: second recovery differs or fails "+where,
+					detail(map[string]any{"first_recovery": got, "second_recovery": got2, "err": fmt.Sprint(err2), "second_crash": ci2, "recovery_ops": fmt.Sprint(fs.Ops())}))
+				return false
+			}
+			return true
+		})
 	}
 	// the recovered log must be usable: one more batch, clean restart. The batch also carries an entry at
 	// the highest height that was durably pruned before the crash: it must never show up.
